@@ -136,7 +136,8 @@ func genSuffixExhaustive(id string, idx int, cnt counters, emit func(line, out s
 	return e
 }
 
-var cfgWild = []int{0, 0, 1, 2, 3, 5, 8, 9, 16, 17, 23, 24, 25, 128, 129, -1, -7, 1 << 16, 1<<16 - 1, 1 << 31, 1<<31 - 1, 1<<32 - 8, 1<<32 - 7, 1 << 33}
+var cfgWild = []int{0, 0, 1, 2, 3, 5, 8, 9, 16, 17, 23, 24, 25, 128, 129, -1, -7, 1 << 16, 1<<16 - 1, 1 << 31, 1<<31 - 1, 1<<32 - 8, 1<<32 - 7, 1 << 33,
+	32768, 32769, 40000, 65537, 1 << 17, 1 << 20, 1 << 23}
 
 func genWildCfg(r *rng) (string, string) {
 	kind := allKinds[r.intn(len(allKinds))]
@@ -174,6 +175,14 @@ func genWildCfg(r *rng) (string, string) {
 				}
 			}
 		}
+	}
+	if wild < 10 && r.chance(20) {
+		// realistic geometries: the defaults of the buffer fields depend on each other around 32 KiB / 64 KiB
+		b := r.pick(65535, 65536, 65537, 1<<17, 1<<20, 8<<20, 40000)
+		c.f["BufferSize"] = b
+		c.f["WindowSize"] = r.pick(0, 32768, 32769, 40000, b/2, b/2+1, b, 2*b)
+		c.f["ShrinkSize"] = r.pick(0, 0, 32768, b-1, b/2)
+		c.f["BlockSize"] = r.pick(0, 1<<17, 1000)
 	}
 	// keep allocations of accepted configurations moderate
 	for _, k := range []string{"HashBits", "HashBits1", "HashBits2"} {
